@@ -714,6 +714,12 @@ class Rectangle(Shape):
         min_y = min(self._lower_coord.imag, self._upper_coord.imag)
         max_y = max(self._lower_coord.imag, self._upper_coord.imag)
 
+        # The rectangle may be rotated around its center: undo the rotation
+        # in the point so that the comparison with the (unrotated)
+        # coordinates is valid.
+        if self.rotation != 0:
+            point = self.pos + Shape.calc_rotated_pos(point - self.pos,
+                                                      -self.rotation)
         point_x = point.real
         point_y = point.imag
         if point_x < min_x:
